@@ -194,6 +194,108 @@ def setitem_config():
     return Config('index >= 0', {'post': post, 'binop_hook': binop_hook}, setup, None)
 
 
+# --------------------------------------------------------------------------------------------- GrowingList.free_index
+# ``next((i for i, x in enumerate(self) if x is None), len(self))``: the generator expression over enumerate(self) is kept as a value (its filter and
+# its element expression are evaluated symbolically at an arbitrary position), ``next(gen, default)`` enters with the semantics of the two builtins:
+# the element expression at the first position that passes the filter, the default if no position does.   ensures (the contract Line.__init__ uses):
+# 0 <= r <= len; r < len -> self[r] is None; no position below r holds None.
+class Elem(Model):
+    def __init__(self, e):
+        self.e = e
+        self.is_none = SBool(e == NONE_ID)
+
+
+class FilteredEnum(Model):
+    def __init__(self, node, gen, lst):
+        self.node, self.gen, self.lst = node, gen, lst
+
+
+def free_index_config():
+    def setup(ex):
+        st = State()
+        L, n = new_list(ex, st)
+        st.env.update(self=L)
+        ex.g = dict(n=n.e, a=st.heap[('L', 'arr')])
+        ex.readonly.add(('L', 'arr'))
+        return st
+
+    def comp_hook(ex, st, n):
+        if not isinstance(n, ast.GeneratorExp) or len(n.generators) != 1:
+            return NotImplemented
+        g = n.generators[0]
+        if ast.unparse(g.iter) != 'enumerate(self)' or not isinstance(g.target, ast.Tuple) or len(g.target.elts) != 2 or \
+                not all(isinstance(t, ast.Name) for t in g.target.elts):
+            return NotImplemented
+        return FilteredEnum(n, g, st.env['self'])
+
+    def at(ex, st, fe, idx):
+        """(filter, element) of the generator expression at position idx"""
+        saved = dict(st.env)
+        try:
+            st.env[fe.gen.target.elts[0].id] = SInt(idx)
+            st.env[fe.gen.target.elts[1].id] = Elem(z3.Select(fe.lst.arr(st), idx))
+            conds = []
+            for c in fe.gen.ifs:
+                t = ex.truth(st, ex.ev(st, c), c)
+                conds.append(t.e if is_sym(t) else z3.BoolVal(bool(t)))
+            return z3.And(*conds) if conds else z3.BoolVal(True), to_int(ex.ev(st, fe.node.elt))
+        finally:
+            st.env.clear()
+            st.env.update(saved)
+
+    def next_(ex, st, args, kwargs, node):
+        if len(args) != 2 or not isinstance(args[0], FilteredEnum):
+            raise NotInSubset('next() of this value')
+        fe, default = args
+        n = to_int(fe.lst.length(st))
+        ex.assumed.add('builtins: next(genexp over enumerate(list), default) is the element expression at the first position passing the filter, else the default')
+        r, istar, j = ex.fv('next', 'int').e, ex.fv('first', 'int').e, z3.Int('j!nx')
+        f_i, e_i = at(ex, st, fe, istar)
+        f_j, _ = at(ex, st, fe, j)
+        found = z3.And(0 <= istar, istar < n, f_i, z3.ForAll([j], z3.Implies(z3.And(0 <= j, j < istar), z3.Not(f_j))), r == e_i)
+        none = z3.And(z3.ForAll([j], z3.Implies(z3.And(0 <= j, j < n), z3.Not(f_j))), r == to_int(default))
+        st.assume(SBool(z3.Or(found, none)))
+        return SInt(r)
+
+    def post(ex, st):
+        g = ex.g
+        r = to_int(st.ret)
+        j = z3.Int('j')
+        yield 'the result is a position of the list or its length', SBool(z3.And(0 <= r, r <= g['n']))
+        yield 'a position inside the list holds None', SBool(z3.Implies(r < g['n'], g['a'][r] == NONE_ID))
+        yield 'no position below the result holds None (first free pin; len(self) if none is free)', SBool(z3.ForAll([j], z3.Implies(z3.And(0 <= j, j < r), g['a'][j] != NONE_ID)))
+        ex.prove(st, 'mustfail:the result is always the length', SBool(r == g['n']), ex.fn, expect='refuted')
+        ex.prove(st, 'mustfail:the result is always 0', SBool(r == 0), ex.fn, expect='refuted')
+    def replay(model, obl, ex):
+        ev = lambda e: model.eval(e, model_completion=True)
+        n = ev(ex.g['n']).as_long()
+        if not 0 <= n <= 40:
+            return None
+        return 'contracts.circuit_c:run_free_index', {'is_none': [ev(z3.Select(ex.g['a'], z3.IntVal(k))).as_long() == NONE_ID for k in range(n)]}
+    cfg = Config('any list', {'post': post, 'comp_hook': comp_hook}, setup, replay)
+    cfg.small = lambda ex: [ex.g['n'] <= 6]
+    cfg.next_ = next_
+    return cfg
+
+
+def run_free_index(args):
+    """the real GrowingList.free_index on a concrete list against the statement of the contract"""
+    from kyupy.circuit import GrowingList
+    g = GrowingList([None if f else object() for f in args['is_none']])
+    try:
+        r = g.free_index()
+    except Exception as e:  # noqa
+        return {'reproduced': True, 'observed': repr(e)}
+    want = next((k for k, f in enumerate(args['is_none']) if f), len(args['is_none']))
+    return {'reproduced': r != want, 'observed': repr(r), 'expected': want}
+
+
+def targets_free_index():
+    cfg = free_index_config()
+    return [Target('circuit', 'GrowingList.free_index', [cfg], prims=lambda globs: {next: cfg.next_}, instantiate='fallback',
+                   note='the generator expression is evaluated symbolically at an arbitrary position (filter and element); next() / enumerate() by their Python semantics')]
+
+
 def targets():
     return [Target('circuit', 'IndexList.__delitem__', [delitem_config()], prims=prims, instantiate='fallback'),
             Target('circuit', 'GrowingList.__setitem__', [setitem_config()], prims=prims, instantiate='fallback')]
